@@ -276,10 +276,20 @@ func cmdCheck(args []string) {
 		fmt.Printf("UNDECIDED: property=%s contract drift (function not verified in this run): %s\n", *prop, d)
 		unchecked = append(unchecked, "contract drift: "+d)
 	}
+	replays := 0
 	for _, v := range viols {
-		suffix := ""
-		if !v.model {
-			suffix = " no-failing-input-found"
+		// A violation carries a failing input only when the solver's counterexample was replayed
+		// on the compiled code and the real code failed; otherwise the line says so.
+		suffix := " no-failing-input-found"
+		if v.model && replays < 4 {
+			ro := tryReplay(v.o, repoDir)
+			if ro.Attempted {
+				replays++
+			}
+			appendReplay(v.replay, ro)
+			if ro.Confirmed {
+				suffix = ""
+			}
 		}
 		fmt.Printf("VIOLATION property=%s replay=%s obligation=%s%s\n", *prop, v.replay, v.o.Name, suffix)
 	}
@@ -339,6 +349,22 @@ func writeReplay(prop string, o *Obligation) string {
 	}
 	_ = os.WriteFile(p, []byte(sb.String()), 0o644)
 	return p
+}
+
+func appendReplay(path string, ro replayOutcome) {
+	f, err := os.OpenFile(path, os.O_APPEND|os.O_WRONLY, 0o644)
+	if err != nil {
+		return
+	}
+	defer f.Close()
+	switch {
+	case !ro.Attempted:
+		fmt.Fprintf(f, "\nreplay on the compiled code: not attempted (%s)\n", ro.Why)
+	case ro.Confirmed:
+		fmt.Fprintf(f, "\nreplay on the compiled code: CONFIRMED - the real function fails on the counterexample\n--- generated test (injected with go test -overlay)\n%s\n--- output\n%s\n", ro.Test, ro.Output)
+	default:
+		fmt.Fprintf(f, "\nreplay on the compiled code: not confirmed (%s)\n--- generated test\n%s\n--- output\n%s\n", ro.Why, ro.Test, ro.Output)
+	}
 }
 
 func writeEvidence(prop, tier string, seed int, units, trusted []string, all []*Obligation, claimed, discharged, nviol int, bySolver map[string]int, solverTime float64, unchecked, knownLines []string, assumed map[string]bool, contractSrc map[string]string, wall float64, crossDis int) {
